@@ -90,6 +90,7 @@ def body_text(body, attr):
         "fmt_args_deep": f'#[{a}("{{}}", {deep})]', "keyword": f"#[{a}(fn, struct, self)]", "punct_soup": f"#[{a}(<<= => ..= :: | || &&)]",
         "group_soup": f"#[{a}([{{()}}], {{[()]}}, (,))]",
         "nested_trailing": f"#[{a}(owned(i32,), ref)]", "nested_trailing2": f"#[{a}(owned(i32,),)]",
+        "fmt_variant": f'#[{a}("{{_variant}}")]', "fmt_variant_wrap": f'#[{a}("[{{_variant}}] {{_variant}}")]',
         "word_repr": f"#[{a}(repr)]", "word_forward": f"#[{a}(forward)]", "word_skip": f"#[{a}(skip)]",
     }[body]
 
